@@ -23,6 +23,17 @@ import (
 // (the scheduled crash).
 var ErrKilled = errors.New("worker killed")
 
+// RaceError is returned when a worker built with -race died from a data race report.
+type RaceError struct{ Report string }
+
+func (e *RaceError) Error() string { return "data race reported by the race detector" }
+
+// PanicError is returned when the worker process died from a panic nobody recovered (for example a
+// panic on a goroutine other than the one serving the request).
+type PanicError struct{ Report string }
+
+func (e *PanicError) Error() string { return "worker process died from an unrecovered panic" }
+
 // Worker is one child process.
 type Worker struct {
 	cmd    *exec.Cmd
@@ -55,6 +66,7 @@ func Env(goroot string, gomaxprocs int) []string {
 		"PATH="+filepath.Join(goroot, "bin")+":"+os.Getenv("PATH"),
 		"GOROOT="+goroot,
 		"GOTOOLCHAIN=local", "GOFLAGS=", "GOPROXY=off", "GOWORK=off", "GOSUMDB=off",
+		"GORACE=halt_on_error=1 exitcode=66", // only meaningful for workers built with -race
 	)
 	if gomaxprocs > 0 {
 		env = append(env, fmt.Sprintf("GOMAXPROCS=%d", gomaxprocs))
@@ -150,6 +162,12 @@ func (w *Worker) fail(cause error) error {
 				return ErrKilled
 			}
 		}
+	}
+	if strings.Contains(w.stderr.String(), "WARNING: DATA RACE") {
+		return &RaceError{Report: w.stderr.String()}
+	}
+	if st := w.stderr.String(); strings.HasPrefix(st, "panic: ") || strings.Contains(st, "\npanic: ") || strings.Contains(st, "fatal error: ") {
+		return &PanicError{Report: st}
 	}
 	if cause == io.EOF {
 		cause = errors.New("EOF")
